@@ -350,6 +350,12 @@ func genSpec(r *term.Rng, o genOpts) term.T {
 	if r.Chance(1, 4) {
 		prelude = "let turns = 0;"
 	}
+	if r.Chance(1, 6) {
+		// a script may assign to any visible name, also to a built-in constant: that is a global of THIS
+		// run's evaluator and must not be seen by any other run of the process
+		prelude += " " + term.Pick(r, []string{"STATUS_BUFF = STATUS_DEBUFF;", "STATUS_DEBUFF = STATUS_BUFF;", "STATUS_BUFF = 0;"})
+		prelude = strings.TrimSpace(prelude)
+	}
 	return term.C("RS", term.L(chars...), term.L(enemies...), term.I(int64(cycles)), term.S(prelude), term.I(seed))
 }
 
